@@ -485,6 +485,8 @@ class Parser:
         parameter in a routine. The symbol has global scope, even if it is
         defined inside a routine.
         """
+        if not self._context.get_macro(name).undefined:
+            return self.trigger_error('Already defined: "{}"'.format(name))
         value = self._current_literal()
         if value is None:
             inner_macro = self._context.get_macro(str(self._current_token))
